@@ -23,7 +23,7 @@ CHECKS = {
             "Not a theorem (checked on every generated module of the run): the source compiles/imports; generating twice is byte-identical.",
             "Lean 4 simulation proof LG ≈ L1 (state relation + frame conditions, induction on fuel) + " + T_MODEL),
     "C02": ("core", "proof",
-            "Theorem optimizer_sound (Props/C02.lean): for every pass list drawn from the exported default passes - any subset, order or repetition - every start rule, input, start position inside the input and every result r (success with end state and pairs, failure, or the KeyError of an undefined reference), the grammar has meaning r in pest's semantics L0 exactly when the optimized grammar has; so the optimized parser also terminates exactly when the un-optimized one does (optimizer_preserves_termination). Lifted to the interpreter model and the generated-code model run on the optimized table (opt_interp_agrees, opt_interp_vs_plain, optgen_agrees: same verdict, same end position, same pairs up to tags) through C03 and C01; optimized_skip_total discharges the SkipTotal hypothesis of those theorems for every optimized table; optimizer_keeps_signature / optimizer_keeps_soiFree: rule names, modifiers and SOI-freeness survive. The optimizer is Opt.lean, a mirror of Optimizer.optimize and the five passes compared AS TREES with the real optimizer's output on every grammar of every run (default pipeline and random pass lists; also cyclic rule graphs). Hypothesis OptS.WF g, executable as OptS.wfCheck and evaluated through the model on every grammar of the run (evidence hyp:g:optwf): the tree shapes the front end builds, no rule named SKIP with modifier SILENT+ATOMIC, SKIP referenced only if defined, and no empty-string alternative in a fused WHITESPACE (open finding nullable-trivia-diverges, replayed on every run); each remaining hypothesis has a proved witness that it is needed. The proof work found five defects of the real optimizer; four are repaired in /repo (85eed0c cd28459 ef95f87 a679cfa) and their witnesses run in the regression corpus. Tags: equal up to tags in the theorem; compared exactly on the implementation. The same run compares optimizer=None with Optimizer(passes), interpreted and generated, on random, template and bundled grammars.",
+            "Theorem optimizer_sound (Props/C02.lean): for every pass list drawn from the exported default passes - any subset, order or repetition - every start rule, input, start position inside the input and every result r (success with end state and pairs, failure, or the KeyError of an undefined reference), the grammar has meaning r in pest's semantics L0 exactly when the optimized grammar has; so the optimized parser also terminates exactly when the un-optimized one does (optimizer_preserves_termination). Lifted to the interpreter model and the generated-code model run on the optimized table (opt_interp_agrees, opt_interp_vs_plain, optgen_agrees: same verdict, same end position, same pairs up to tags) through C03 and C01; optimized_skip_total discharges the SkipTotal hypothesis of those theorems for every optimized table; optimizer_keeps_signature / optimizer_keeps_soiFree: rule names, modifiers and SOI-freeness survive. The optimizer is Opt.lean, a mirror of Optimizer.optimize and the five passes compared AS TREES with the real optimizer's output on every grammar of every run (default pipeline and random pass lists; also cyclic rule graphs). Hypothesis OptS.WF g, executable as OptS.wfCheck and evaluated through the model on every grammar of the run (evidence hyp:g:optwf): the tree shapes the front end builds, no rule named SKIP with modifier SILENT+ATOMIC, SKIP referenced only if defined, and no empty-string alternative in a fused WHITESPACE (open finding nullable-trivia-diverges, replayed on every run); each remaining hypothesis has a proved witness that it is needed. Outside the model: what the regex engine folds for a ^ literal on non-ASCII input (the model folds ASCII letters only, as pest does) - open finding ci-nonascii-fold, the one place where the real modes are known to differ, replayed on every run. The proof work found five defects of the real optimizer; four are repaired in /repo (85eed0c cd28459 ef95f87 a679cfa) and their witnesses run in the regression corpus. Tags: equal up to tags in the theorem; compared exactly on the implementation. The same run compares optimizer=None with Optimizer(passes), interpreted and generated, on random, template and bundled grammars.",
             "Lean 4 proof: rewrite relation TR simulated in L0 by induction on fuel (squash: is_order_preserving suffices; skip; SKIP fusion), composed over pass lists; lifted through L1 ⊑ L0 and LG ≈ L1; " + T_MODEL),
     "C03": ("core", "proof",
             "Theorems interp_refines_spec / parse_agrees_with_spec (all grammars, expressions, inputs, start positions, states, fuel): the "
